@@ -180,6 +180,9 @@ func (ch *channel) addInitDataAndUpdateTimescale(stream stream, init *mp4.InitSe
 	r.lang = lang
 
 	stsd := trak.Mdia.Minf.Stbl.Stsd
+	if len(stsd.Children) == 0 {
+		return fmt.Errorf("no sample entry in stsd box")
+	}
 	sampleEntry := stsd.Children[0].Type()
 
 	ch.addTrData(r)
@@ -410,6 +413,9 @@ func extractVideoData(stsd *mp4.StsdBox, rep *m.RepresentationType) error {
 	switch sampleEntry {
 	case "avc1":
 		decConfRec := stsd.AvcX.AvcC.DecConfRec
+		if len(decConfRec.SPSnalus) == 0 {
+			return fmt.Errorf("no SPS in avcC box")
+		}
 		spsRaw := decConfRec.SPSnalus[0]
 		sps, err := avc.ParseSPSNALUnit(spsRaw, true)
 		if err != nil {
@@ -418,7 +424,11 @@ func extractVideoData(stsd *mp4.StsdBox, rep *m.RepresentationType) error {
 		codecs = avc.CodecString(sampleEntry, sps)
 	case "hvc1":
 		decConfRec := stsd.HvcX.HvcC.DecConfRec
-		spsRaw := decConfRec.GetNalusForType(hevc.NALU_SPS)[0]
+		spsNalus := decConfRec.GetNalusForType(hevc.NALU_SPS)
+		if len(spsNalus) == 0 {
+			return fmt.Errorf("no SPS in hvcC box")
+		}
+		spsRaw := spsNalus[0]
 		sps, err := hevc.ParseSPSNALUnit(spsRaw)
 		if err != nil {
 			return fmt.Errorf("failed to parse hvc1 SPS: %w", err)
